@@ -372,7 +372,22 @@ func generate(ctx *core.Ctx, szs []int) ([]genCase, error) {
 }
 
 // concretisations chooses the concrete cases for one table line.
-func concretisations(ctx *core.Ctx, gi int, gc genCase) (out []spec) {
+// writer contexts, rotating over the concrete cases of a table line
+var writeCtxs = []string{"", "stream", "puts", "stream+puts"}
+
+func concretisations(ctx *core.Ctx, gi int, gc genCase) []spec {
+	out := concretisations0(ctx, gi, gc)
+	rot := gi + int(ctx.Seed)
+	if rot < 0 {
+		rot = -rot
+	}
+	for i := range out {
+		out[i].Ctx = writeCtxs[(i+rot)%4]
+	}
+	return out
+}
+
+func concretisations0(ctx *core.Ctx, gi int, gc genCase) (out []spec) {
 	per := 2
 	if gc.N > 1000 {
 		per = 1
@@ -452,6 +467,15 @@ func checkTable(gc genCase, ob *observation) string {
 	}
 	if len(rec.LK) != len(rec.Val) || len(rec.ML) != len(rec.Val) {
 		return "readers not available"
+	}
+	for _, e := range rec.Exits {
+		want := e.K
+		if gc.N < want {
+			want = gc.N
+		}
+		if len(e.SK) != want || len(e.MK) != want || e.SP != 0 || e.MP != 0 {
+			return fmt.Sprintf("early exit at %d", e.K)
+		}
 	}
 	if rec.Mem {
 		if len(rec.VAllK) != gc.N || len(rec.VL) != len(rec.Val) {
@@ -583,6 +607,9 @@ func report(ctx *core.Ctx, ob *observation, parts []string) error {
 			class = "first-use"
 		}
 	}
+	if strings.Contains(s.Ctx, "stream") {
+		class += "/stream-open"
+	}
 	key := fmt.Sprintf("%s/%s/%s/%s", s.kind(), s.API, class, parts[0])
 	what := fmt.Sprintf("%s: the real tree / answers are rejected by the reference semantics (Trace_KeyTree): %s%s",
 		s.id(), strings.Join(parts, ", "), describe(ob))
@@ -614,6 +641,17 @@ func describe(ob *observation) string {
 		}
 		if i < len(rec.ML) && rec.ML[i] != want {
 			return fmt.Sprintf("; e.g. in-memory Lookup(%s) = %d, written %d (-1 = not found)", ob.Union[i], rec.ML[i], want)
+		}
+	}
+	for _, e := range rec.Exits {
+		if e.SP != 0 || e.MP != 0 {
+			return fmt.Sprintf("; e.g. a range loop over All() that breaks at its %d. iteration panics", e.K)
+		}
+		if len(e.SK) > e.K {
+			return fmt.Sprintf("; e.g. streaming All(): the consumer stopped at its %d. entry and was called again with %s", e.K, ob.Union[e.SK[e.K]-1])
+		}
+		if len(e.MK) > e.K {
+			return fmt.Sprintf("; e.g. in-memory All(): the consumer stopped at its %d. entry and was called again with %s", e.K, ob.Union[e.MK[e.K]-1])
 		}
 	}
 	for i, nd := range rec.Nodes {
@@ -755,6 +793,7 @@ func runMemScripts(ctx *core.Ctx, scripts []memScript) (obs []*observation, runs
 			if sc.N > 1000 {
 				s.Per, s.Probe = 1, "edges"
 			}
+			s.Ctx = writeCtxs[(rot+v+i/4)%4]
 			// key styles in rotating order; the first one in which the script is realisable is used
 			// (no key exists below the empty name / MinInt64 or between consecutive integers)
 			var styles []string
